@@ -7,6 +7,7 @@ import Driver.Misc.Main
 import Driver.Conc.Main
 import Driver.GCMon.Main
 import Driver.Immix.Main
+import Driver.Los.Main
 /-!
 # `mmtk_model`: the executable model behind the line protocol
 
@@ -25,6 +26,7 @@ structure St where
   conc : Driver.Conc.St := {}
   gcmon : Driver.GCMon.Pkg.St := {}
   immix : Driver.Immix.St := {}
+  los : Driver.Los.St := {}
 
 def step (st : St) (line : String) : St × Option String :=
   match tokens line with
@@ -60,6 +62,9 @@ def step (st : St) (line : String) : St × Option String :=
     | none =>
     match Driver.Immix.step st.immix toks with
     | some (s, o) => ({ st with immix := s }, some o)
+    | none =>
+    match Driver.Los.step st.los toks with
+    | some (s, o) => ({ st with los := s }, some o)
     | none => (st, some "bad-op")
 
 partial def loop (h : IO.FS.Stream) (out : IO.FS.Stream) (st : St) : IO Unit := do
